@@ -6144,7 +6144,24 @@ func (t *Terminal) Loop() error {
 		t.mutex.Unlock() // Must be unlocked before touching reqBox
 
 		if reload {
-			t.eventBox.Set(EvtSearchNew, *reloadRequest)
+			t.eventBox.Update(EvtSearchNew, func(prev any) any {
+				// The previous request may not have been processed yet. Do not
+				// lose its one-time parts: new nth, denylist, and reload command.
+				request := *reloadRequest
+				if pending, ok := prev.(searchRequest); ok {
+					if request.nth == nil {
+						request.nth = pending.nth
+					}
+					if request.command == nil {
+						request.command, request.environ, request.sync = pending.command, pending.environ, pending.sync
+					}
+					if pending.revision.compatible(request.revision) {
+						request.denylist = append(pending.denylist, request.denylist...)
+					}
+					request.changed = request.changed || pending.changed
+				}
+				return request
+			})
 		}
 		for _, event := range events {
 			t.reqBox.Set(event, nil)
